@@ -109,7 +109,7 @@ func init() {
 		Level: "exploration",
 		Rule: "every composition to depth 2 (quick, 90 shapes) / 3 (thorough, 819 shapes) of the nine tail contexts {cond arm 1, cond arm 2, cond default, begin, let, letseq, newScope, last of and, last of or} around a self call, times seven bodies (nothing; defines locals; opens/closes scopes and a loop before the call; accumulates closures capturing the parameter and a local; another self call inside an argument of the tail call; the argument itself being a self call; the same below cond/let inside the argument). " +
 			"(a) space: each shape is run at depths 0,1,10,30,100,300,1000 (10^4 for every ninth case in quick and every third in thorough; thorough 10^5 for every 27th case and 10^6 for every 360th, the latter without the reference comparison; the closure-accumulating body up to 300) while the step hook samples the high-water marks of the data/scope/address/loop stacks; they must be identical for all n>=10 and the run must finish within a step budget linear in n. " +
-			"(b) transparency: value, effect trace and (closure body) the values obtained by calling every accumulated closure equal those of the de-optimised twin (self call wrapped in a host identity call, so not in tail position) on the real VM for n<=100, and those of the reference evaluator (which has no tail calls) for all n. (c) non-tail contexts: 34 forms in which more work follows the self call (array/list/hash/template construction, assert, arithmetic, tests, initializers, assignments, loop bodies, non-final operands) and two wrong-arity self calls, each below every tail context: value/error-ness, trace and rest state must equal those of the same function with the self call wrapped in a host identity call. (d) 23 tail-recursive functions with unusual signatures and bodies (variadic with zero / one / several / alternating extras, zero parameters driven by globals, body-level def locals captured by closures or re-defined with another type, lazy formals in any position, typed func declarations, return, package members, loops and nested scopes before the call, a wrong-arity branch): same twin oracle at depths 0-6, rest state, and equal high-water marks at depths 30 and 300. non-trivial = every (shape, body) pair (distinct by construction)",
+			"(b) transparency: value, effect trace and (closure body) the values obtained by calling every accumulated closure equal those of the de-optimised twin (self call wrapped in a host identity call, so not in tail position) on the real VM for n<=100, and those of the reference evaluator (which has no tail calls) for all n. (c) non-tail contexts: 34 forms in which more work follows the self call (array/list/hash/template construction, assert, arithmetic, tests, initializers, assignments, loop bodies, non-final operands) and two wrong-arity self calls, each below every tail context: value/error-ness, trace and rest state must equal those of the same function with the self call wrapped in a host identity call. (d) 30 tail-recursive functions with unusual signatures and bodies (variadic with zero / one / several / alternating extras, zero parameters driven by globals, body-level def locals captured by closures or re-defined with another type, lazy formals in any position, typed func declarations, return, package members, loops and nested scopes before the call, a wrong-arity branch, the tail position reached through user macros, the function defined again with another parameter list or other lazy positions by a later evaluation): same twin oracle at depths 0-6, rest state, and equal high-water marks at depths 30 and 300. non-trivial = every (shape, body) pair (distinct by construction)",
 		Assumptions: []string{
 			"constant space is checked as equality of stack high-water marks over the explored depths, not for all depths",
 			"heap growth is not judged (the closure-accumulating body grows its accumulator by design)",
@@ -165,6 +165,25 @@ var c09Sig = []struct{ def, call string }{
 	{"(defn f [n h] (hset h n n) (cond (<= n 0) (len (keys h)) @(f (- n 1) h)@))", "(f N (hash))"},
 	{"(def p (package \"p\" (defn F [n a] (cond (<= n 0) a @(F (- n 1) (+ a n))@)))) ", "(p.F N 0)"},
 	{"(defn f [n] (cond (<= n 0) 0 (> n 1000000) @(f)@ @(f (- n 1))@))", "(f N)"},
+	// the tail position is reached through a user macro
+	{"(defmac ifelse9 [c a b] ^(cond ~c ~a ~b)) (defn f [n a] (ifelse9 (<= n 0) a @(f (- n 1) (+ a n))@))", "(f N 0)"},
+	{"(defmac unless9 [c b1 b2] ^(cond ~c nil (begin ~b1 ~b2))) (defn f [n a] (let [m (- n 1)] (unless9 (< n 0) (tr 1 n) (cond (<= n 0) a @(f m (+ a n))@))))", "(f N 0)"},
+	{"(defmac my-and9 [a b] ^(and ~a ~b)) (defn f [n] (cond (<= n 0) 7 (my-and9 true @(f (- n 1))@)))", "(f N)"},
+	// the function is defined again, with another parameter list, by a later evaluation (|| separates evaluations)
+	{"(defn f [n] (* n 2)) (f 1) || (defn f [n acc] (cond (<= n 0) acc @(f (- n 1) (+ acc n))@))", "(f N 0)"},
+	{"(defn f [#a n] n) (f 1 2) || (defn f [a n] (cond (<= n 0) a @(f (+ a 1) (- n 1))@))", "(f 0 N)"},
+	{"(defn f [a n] n) (f 1 2) || (defn f [#a n] (cond (<= n 0) 0 @(f (tr 5 n) (- n 1))@))", "(f (tr 6 1) N)"},
+	{"(defn f [n & r] (len r)) (f 1 2) || (defn f [n] (cond (<= n 0) 0 @(f (- n 1))@))", "(f N)"},
+}
+
+// c09EvalParts evaluates the parts of a text separated by "||" one after the other on the same
+// interpreter (a definition made by an earlier evaluation, then a new one) and returns the last outcome.
+func c09EvalParts(s *SutRun, text string, budget int64) *sut.Outcome {
+	var o *sut.Outcome
+	for _, part := range strings.Split(text, "||") {
+		o = s.Eval(strings.TrimSpace(part)+"\n", budget)
+	}
+	return o
 }
 
 func c09SigRun(c *core.Ctx, k int) *core.Result {
@@ -187,8 +206,8 @@ func c09SigRun(c *core.Ctx, k int) *core.Result {
 	for _, n := range []int{0, 1, 2, 3, 6} {
 		nn := fmt.Sprint(n)
 		a, b := NewSutRun(true), NewSutRun(true)
-		oa := a.Eval(strings.ReplaceAll(opt+t.call, "N", nn)+"\n", 400000)
-		ob := b.Eval(strings.ReplaceAll(twin+t.call, "N", nn)+"\n", 400000)
+		oa := c09EvalParts(a, strings.ReplaceAll(opt+t.call, "N", nn), 400000)
+		ob := c09EvalParts(b, strings.ReplaceAll(twin+t.call, "N", nn), 400000)
 		res.Evals += 2
 		res.Ev("signature_shapes", 1)
 		if oa.Panic != "" {
@@ -214,7 +233,7 @@ func c09SigRun(c *core.Ctx, k int) *core.Result {
 		for j, n := range []int{30, 300} {
 			s := NewSutRun(true)
 			zygo.Verif.Watch = s.Env
-			o := s.Eval(strings.ReplaceAll(opt+t.call, "N", fmt.Sprint(n))+"\n", 3000000)
+			o := c09EvalParts(s, strings.ReplaceAll(opt+t.call, "N", fmt.Sprint(n)), 3000000)
 			zygo.Verif.Watch = nil
 			marks[j] = [4]int{zygo.Verif.HiData, zygo.Verif.HiScope, zygo.Verif.HiAddr, zygo.Verif.HiLoop}
 			res.Evals++
